@@ -170,6 +170,18 @@ def witness_from_model(model, assertions, P):
     return params, pins
 
 
+def concretisation_point(exc):
+    """True when the exception surfaced inside z3 (or a builtin called by it) because a symbolic term was used where
+    a plain Python number is needed - e.g. z3.IntVal(term) - as opposed to a `raise` of the library"""
+    tb = exc.__traceback__
+    last = None
+    while tb is not None:
+        last = tb
+        tb = tb.tb_next
+    fn = last.tb_frame.f_code.co_filename if last is not None else ""
+    return "/z3/" in fn or isinstance(exc, z3.Z3Exception)
+
+
 def raised_by_library(exc):
     """True when the exception comes out of processscheduler (or of a library it called) rather than out of the
     harness itself: walking the traceback outwards from the innermost frame, the first frame that belongs to
@@ -511,7 +523,7 @@ def replay_schedule(desc):
     return 2
 
 
-def grid_points(path, limit, seed=0):
+def grid_points(path, limit, seed=0, extra_base=None):
     """Concrete parameter points of a symbolic path region: one small interior model, every
     parameter at 0 / 1 / -1, and every ordering (<, =, >) of every pair of parameters, as far as
     the path condition and the validity assumptions allow. The symbolic build covers all values at
@@ -520,11 +532,11 @@ def grid_points(path, limit, seed=0):
     import random
 
     ctx = path.out
-    P = ctx.P
+    P = ctx.P if ctx is not None else path.P
     names = [n for n in P.names if z3.is_expr(P.terms[n])]
     if not names:
         return [{}]
-    base = _base(ctx, path)
+    base = _base(ctx, path) + ([formula.to_z3(x) for x in extra_base] if extra_base else [])
     terms = [P.terms[n] for n in names]
     cands = [[]]
     for t in terms:
@@ -578,9 +590,9 @@ def replay_counterexample(prop, module, shape, res, ob, replayed):
         state["confirmed"] = rp
 
 
-def grid_phase(shape, path, prop, module, limit, seed, out, replayed):
+def grid_phase(shape, path, prop, module, limit, seed, out, replayed, extra_base=None):
     """Decide every obligation again on builds made by the unpatched API at concrete points."""
-    for pt in grid_points(path, limit, seed):
+    for pt in grid_points(path, limit, seed, extra_base):
         try:
             ctx = build_concrete(shape, pt)
         except Exception as e:
@@ -652,6 +664,19 @@ def run_shape(args):
                         pass
                 handler = getattr(shape, "on_exception", None)
                 obs = handler(path) if handler is not None else None
+                if obs is None and concretisation_point(path.exc) and getattr(shape, "grid", True) and getattr(path, "P", None) is not None:
+                    # the symbol reached code that needs a plain number (z3.IntVal(x), range(x), ...): this path region is
+                    # decided at concrete parameter points only, on builds made by the unpatched API
+                    before = len(out["results"])
+                    extra_base = list(shape.assumptions(path.P)) if getattr(shape, "assumptions", None) else []
+                    limit = (getattr(shape, "grid_limit", None) or (6 if tier == "quick" else 24)) * 2
+                    grid_phase(shape, path, prop, module, limit, int(os.environ.get("VERIF_SEED", "0") or 0), out, replayed, extra_base)
+                    new = out["results"][before:]
+                    if new and not any(r["status"] in ("error", "unknown") for r in new):
+                        out["results"].append({"id": f"{prop}/{shape.name}/path_decided_at_concrete_points_only", "kind": "exception", "status": "ok",
+                                               "path": path.tag(), "path_cond": path.describe(),
+                                               "note": f"symbolic execution stopped at a concretisation point ({type(path.exc).__name__}); {len(new)} obligations decided at concrete points of the path region"})
+                        continue
                 if obs is None:
                     out["results"].append({"id": f"{prop}/{shape.name}/no_exception", "kind": "exception",
                                            "status": "error", "path": path.tag(),
@@ -741,7 +766,13 @@ def run_property(prop, module, tier, level, assumptions, trusted=None, extra_cov
         st = o.get("stats", {})
         queries += st.get("queries", 0) + o.get("explorer_queries", 0)
         solver_s += st.get("solver_s", 0.0)
+        # an obligation that is vacuous on one path of a shape (the path condition already decides its guard) is not
+        # a harness problem as long as the same obligation is decided non-vacuously on another path of that shape
+        decided = {r["id"] for r in o["results"] if r["status"] in ("unsat", "sat") and not r.get("vacuous_by_design")}
         for r in o["results"]:
+            if r["status"] == "vacuous" and r["id"] in decided:
+                r["status"] = "unsat"
+                r["vacuous_on_this_path_only"] = True
             n_ob += 1
             counts[r["status"]] = counts.get(r["status"], 0) + 1
             if len(samples) < 6 and r.get("smt_sample") and (n_ob % 7 == 1):
